@@ -21,26 +21,29 @@ BIN = "vh_num"
 # ---------------------------------------------------------------------------------------------
 # helpers (candidates for lib/core.py)
 
+LAST_TAGS = {}   # other tags printed by the last validation: {"WEAK": {indices}}
+
+
 def validate_calls_classes(spec_dir, module, events, name, chunks=12, cfg=None, timeout=3000, heap="2g", env=None):
     """Like core.validate_calls, but also returns the class string the trace module prints for a
     rejected event (<<"CLASS", l, "...">>): {global index: class}."""
     from concurrent.futures import ThreadPoolExecutor
+    LAST_TAGS.clear()
     n = len(events)
     if n == 0:
         return {}
     chunks = max(1, min(chunks, (n + 49) // 50))
-    size = (n + chunks - 1) // chunks
     jobs = []
     for c in range(chunks):
-        part = events[c * size:(c + 1) * size]
+        part = events[c::chunks]          # round-robin: expensive events are spread over the processes
         if not part:
             continue
         p = os.path.join(core.WORK, "%s-%d-calls-%d.ndjson" % (name, os.getpid(), c))
         write_ndjson(p, part)
-        jobs.append((c * size, p, len(part)))
+        jobs.append((c, p, len(part)))
 
     def run(job):
-        base, p, ln = job
+        c, p, ln = job
         e = {"TRACE": p}
         if env:
             e.update(env)
@@ -52,9 +55,12 @@ def validate_calls_classes(spec_dir, module, events, name, chunks=12, cfg=None, 
         if not m or int(m.group(1)) != ln:
             sys.stderr.write(r.out[-3000:])
             raise ToolError("call-trace validation of %s consumed %s of %d events" % (module, m and m.group(1), ln))
-        bad = {base + int(x) - 1: "unclassified" for x in re.findall(r'<<"BAD", (\d+)>>', r.out)}
+        gi = lambda x: c + (int(x) - 1) * chunks      # local 1-based index -> global index
+        bad = {gi(x): "unclassified" for x in re.findall(r'<<"BAD", (\d+)>>', r.out)}
         for x, cl in re.findall(r'<<"CLASS", (\d+), "([^"]*)">>', r.out):
-            bad[base + int(x) - 1] = cl
+            bad[gi(x)] = cl
+        for tag, x in re.findall(r'<<"(WEAK)", (\d+)>>', r.out):
+            LAST_TAGS.setdefault(tag, set()).add(gi(x))
         os.unlink(p)
         return bad
 
@@ -136,6 +142,26 @@ def binding_selftest(ctx, spec_dir, trace_module, evs, bad, corrupt, want=40):
     return len(cor)
 
 
+def replay_file(ctx, spec_dir, trace_module, what):
+    """./check Cxx --replay f: the call recorded in the replay file is made again on the current tree
+    (same inputs) and the fresh recording is decided by the specification."""
+    obj = json.load(open(ctx.replay_path))
+    ev = obj.get("replay", {}).get("event")
+    if not ev:
+        raise ToolError("replay file has no recorded event")
+    ev = {k: v for k, v in ev.items() if k != "weak"}
+    p = ctx.wpath("replay-in.ndjson")
+    write_ndjson(p, [ev])
+    rc, out = vh(BIN, ["replay", "replay"], stdin_path=p)
+    os.unlink(p)
+    fresh = [json.loads(l) for l in out.splitlines() if l.strip()]
+    if not fresh or any(e.get("a") == "unsupported" for e in fresh):
+        raise ToolError("replay of this kind of call is not supported: %s" % ev.get("a"))
+    ctx.sample({"replayed_call": fresh[0]})
+    bad = check_calls(ctx, spec_dir, trace_module, fresh, what, chunks=1)
+    return {"replayed": len(fresh), "distinct_nontrivial": len(fresh), "rule": "replay of one recorded call from %s" % ctx.replay_path}
+
+
 def distinct_count(evs, trivial=lambda e: False):
     return len({json.dumps(e, sort_keys=True) for e in evs if not trivial(e)})
 
@@ -203,6 +229,8 @@ def C29(ctx):
     r = tlc("Calendar", "MCCalendar", workers=6, consts={"MaxYear": my, "TextEvery": te}, timeout=3000)
     tlc_must_pass(r, "MCCalendar", required_actions=["NextDay", "NextMonth", "NextYear"])
     ctx.add_tlc(r)
+    if getattr(ctx, "replay_path", None):
+        return replay_file(ctx, "Calendar", "TraceCalendar", "UtcDateTime/Instant")
     # T: recorded calls of the real functions at full scale
     evs = record(ctx, "time", ["scale=%d" % (1 if q else 12)])
     pick_samples(ctx, evs, {"from_instant", "dt_add", "parse"})
@@ -221,7 +249,287 @@ def C29(ctx):
                     "rejections count because rejecting is part of the property" % my}
 
 
+# ---------------------------------------------------------------------------------------------
+# C24-C27 — Decimal / PreciseDecimal
+
+ZERO = {"s": 0, "l": []}
+D_MIN = -(2 ** 191)
+P_MIN = -(2 ** 255)
+
+
+def _dec_corrupt(ev):
+    """corrupted copies of an accepted Decimal-column recording (all must be rejected)"""
+    a, out = ev["a"], ev.get("out")
+    res = []
+    if a in ("parse",):
+        if out == "ok":
+            res += [dict(ev, r=bump(ev["r"], 1)), dict(ev, out="err"), dict(ev, out="panic")]
+        elif out == "err":
+            res += [dict(ev, out="panic")]
+    elif a == "print":
+        cp = list(ev["cp"])
+        if cp and 48 <= cp[-1] <= 57:
+            cp2 = cp[:-1] + [48 + (cp[-1] - 48 + 1) % 10]
+            res += [dict(ev, cp=cp2), dict(ev, cp=cp + [48]) if 46 in cp else dict(ev, cp=cp + [46, 48]), dict(ev, cp=[43] + cp if cp[0] != 45 else cp[1:])]
+        res += [dict(ev, out="panic")]
+    elif out == "some":
+        res += [dict(ev, r=bump(ev["r"], 1)), dict(ev, r=bump(ev["r"], -1)), dict(ev, out="none"), dict(ev, out="panic")]
+        if a == "powi" and ev.get("weak"):
+            res = [dict(ev, out="panic")]
+    elif out == "none":
+        res += [dict(ev, out="panic")]
+        if a in ("add", "sub", "neg", "abs", "from_int"):
+            res += [dict(ev, out="some", r=ZERO)]
+    return res
+
+
+def _strip(evs):
+    return [{k: v for k, v in e.items() if k != "weak"} for e in evs]
+
+
+def binding_selftest_dec(ctx, evs, bad, extra=()):
+    cor, kinds = list(extra), {}
+    for i, ev in enumerate(evs):
+        if i in bad:
+            continue
+        k = (ev["a"], ev.get("out"), ev.get("ty"), ev.get("mode"), ev.get("via"))
+        if kinds.get(k, 0) >= 1:
+            continue
+        cs = _dec_corrupt(ev)
+        if cs:
+            kinds[k] = 1
+            cor.extend(cs)
+        if len(cor) >= 400:
+            break
+    if len(cor) < 4:
+        raise ToolError("binding self-test: nothing to corrupt")
+    cor = _strip(cor)
+    rej = validate_calls_classes("Decimal", "TraceDecimal", cor, ctx.pid + "-selftest", chunks=4)
+    missed = [cor[i] for i in range(len(cor)) if i not in rej]
+    if missed:
+        raise ToolError("binding self-test of TraceDecimal: corrupted recording accepted: %s" % json.dumps(missed[0])[:400])
+    core.log("TraceDecimal binding self-test: %d corrupted recordings all rejected" % len(cor))
+    return len(cor), rej, cor
+
+
+def C24(ctx):
+    q = ctx.quick
+    # S: exhaustive at tiny scale (all pairs): unique outcome = direct definition
+    r = tlc("Decimal", "MCDecimal", cfg="MCArith", workers=6, consts={"NBITS": 6 if q else 8, "WBITS": 11 if q else 12}, timeout=3000)
+    tlc_must_pass(r, "MCDecimal/MCArith", required_actions=["Pair", "Single", "DoNarrow"])
+    ctx.add_tlc(r)
+    if getattr(ctx, "replay_path", None):
+        return replay_file(ctx, "Decimal", "TraceDecimal", "Decimal/PreciseDecimal arithmetic")
+    if not q:
+        # the big-integer library the full-scale validation rests on, against Python integers
+        sys.path.insert(0, os.path.join(core.SPEC, "common"))
+        import bigint_selftest
+        total, disagree, rejected = bigint_selftest.run(ctx.seed, 2000)
+        if disagree or not rejected:
+            raise ToolError("BigInt.tla self-test failed: %d disagreements (of %d), corrupted rejected=%s" % (len(disagree), total, rejected))
+        core.log("BigInt.tla self-test: %d cases agree with Python integers" % total)
+    evs = record(ctx, "arith", ["scale=%d" % (1 if q else 6)])
+    pick_samples(ctx, evs, {"mul", "div", "narrow"})
+    bad = check_calls(ctx, "Decimal", "TraceDecimal", evs, "Decimal/PreciseDecimal arithmetic")
+    # the cases that were once wrongly reported as overflow must be present and (now) recorded as exact MIN
+    mins = [e for e in evs if e["a"] in ("mul", "div", "narrow") and e["out"] == "some" and big_to_int(e["r"]) in (D_MIN, P_MIN)]
+    kinds = {(e["a"], e.get("ty")) for e in mins}
+    missing = {("mul", "d"), ("mul", "p"), ("div", "d"), ("div", "p"), ("narrow", None)} - kinds
+    recurred = [i for i in bad if bad[i] == "result equals MIN"]
+    if missing and not recurred:
+        raise ToolError("C24 inputs no longer contain calls whose exact result is MIN: %s" % sorted(map(str, missing)))
+    for e in mins[:2]:
+        ctx.sample({"exact_result_is_MIN": e}, cap=8)
+    # B: corrupted recordings must be rejected; a recurrence of 'MIN reported as overflow' must be flagged under its key
+    extra = [dict(e, out="none", r=ZERO) for e in mins[:6]]
+    ncor, rej, cor = binding_selftest_dec(ctx, evs, bad, extra=extra)
+    for i in range(len(extra)):
+        if rej.get(i) != "result equals MIN":
+            raise ToolError("binding self-test: a MIN result turned into overflow was classified %r" % rej.get(i))
+    nontriv = distinct_count(evs, lambda e: big_to_int(e["x"]) == 0 or ("y" in e and big_to_int(e["y"]) == 0))
+    return {"exhaustive": False, "distinct_nontrivial": nontriv, "calls_with_exact_result_MIN": len(mins),
+            "corrupted_recordings_rejected": ncor,
+            "rule": "S: all operand pairs of a %d-bit / 1-decimal type (TLC): every post-condition admits exactly the direct result. "
+                    "T: ~40 core boundary values crossed pairwise x {add,sub,mul,div}, constructed pairs whose exact result is "
+                    "MIN-1..MIN+1 / MAX-1..MAX+1 (sums, 2^j*ONE x MIN/2^j, MIN/ONE, 10^k*10^m), every boundary class value "
+                    "(+-10^k, +-2^k, +-(2^k+-1), MIN/2^j, MAX/2^j, sqrt(MAX) neighbourhood) against core/boundary/random partners, "
+                    "seeded random pairs with bit lengths spread over the width, neg/abs, From/TryFrom of 12 primitive and 10-12 "
+                    "bnum integer types at their limits and at floor(MAX/ONE)+-2, widening of Decimal boundary values, narrowing "
+                    "of their images +-1, +-(10^18-1), +-10^18; both types. distinct_nontrivial = distinct recorded calls with "
+                    "all operands non-zero" % (6 if q else 8)}
+
+
+def C25(ctx):
+    q = ctx.quick
+    r = tlc("Decimal", "MCDecimal", cfg="MCRound", workers=6, consts={"WBITS": 8 if q else 10, "NBITS": 4 if q else 6}, timeout=3000)
+    tlc_must_pass(r, "MCDecimal/MCRound", required_actions=["DoRound", "DoFloorCeil", "DoTruncate"])
+    ctx.add_tlc(r)
+    if getattr(ctx, "replay_path", None):
+        return replay_file(ctx, "Decimal", "TraceDecimal", "rounding")
+    evs = record(ctx, "round", ["scale=%d" % (1 if q else 6)])
+    pick_samples(ctx, evs, {"round", "truncate", "withdraw"})
+    bad = check_calls(ctx, "Decimal", "TraceDecimal", evs, "rounding")
+    ncor, _, _ = binding_selftest_dec(ctx, evs, bad)
+    modes = {e["mode"] for e in evs if e["a"] == "round"}
+    dps = {(e["ty"], e["dp"]) for e in evs if e["a"] == "round"}
+    if len(modes) != 7 or len(dps) != 19 + 37:
+        raise ToolError("C25 inputs do not cover all modes / decimal places: %d modes, %d (type, dp)" % (len(modes), len(dps)))
+    nontriv = distinct_count(evs, lambda e: e["out"] == "some" and e["r"] == e["x"])
+    ties = sum(1 for e in evs if e["a"] == "round" and e["out"] == "some" and e["r"] != e["x"] and
+               2 * abs(big_to_int(e["r"]) - big_to_int(e["x"])) == 10 ** ((18 if e["ty"] == "d" else 36) - e["dp"]))
+    return {"exhaustive": False, "distinct_nontrivial": nontriv, "exact_ties_recorded": ties, "corrupted_recordings_rejected": ncor,
+            "rule": "S: all values of a %d-bit / 2-decimal type x dp 0..2 x 7 modes, floor/ceiling, truncation to a narrower type "
+                    "(TLC): exactly one outcome, equal to the direct definition. T: for every dp 0..18 (Decimal) / 0..36 "
+                    "(PreciseDecimal): multiples k*u for k in {0,1,2,3,10, largest in range, random}, both signs, +-1 sub-unit, exact "
+                    "ties k*u+-u/2 and ties +-1 sub-unit, MIN/MAX and values within u of them, x 7 modes (quick: rotating 3 of 7 "
+                    "beyond the first 12 values per dp); boundary classes and random values with random dp/mode; floor, ceiling; "
+                    "for_withdrawal at divisibility 0..18 (Exact and Rounded); checked_truncate PreciseDecimal->Decimal x 7 modes "
+                    "incl. the ends of the Decimal range. distinct_nontrivial = distinct recorded calls whose value was NOT "
+                    "already at the requested precision (result differs from input, or overflow)" % (8 if q else 10)}
+
+
+def C26(ctx):
+    q = ctx.quick
+    r1 = tlc("Decimal", "MCDecimal", cfg="MCRoot", workers=6, consts={"WBITS": 8 if q else 11, "NBITS": 6 if q else 8}, timeout=3000)
+    tlc_must_pass(r1, "MCDecimal/MCRoot", required_actions=["DoRootN", "DoRootW"])
+    ctx.add_tlc(r1)
+    r2 = tlc("Decimal", "MCDecimal", cfg="MCPowi", workers=6, consts={"NBITS": 6 if q else 7, "MaxExp": 4}, timeout=3000)
+    tlc_must_pass(r2, "MCDecimal/MCPowi", required_actions=["DoPowi"])
+    ctx.add_tlc(r2)
+    if getattr(ctx, "replay_path", None):
+        return replay_file(ctx, "Decimal", "TraceDecimal", "roots and powers")
+    if not q:
+        r3 = tlc("Decimal", "MCDecimal", cfg="MCPowi", workers=6, consts={"NBITS": 8, "MaxExp": 3}, timeout=3000)
+        tlc_must_pass(r3, "MCDecimal/MCPowi", required_actions=["DoPowi"])
+        ctx.add_tlc(r3)
+    evs = record(ctx, "rootpow", ["scale=%d" % (1 if q else 2)])
+    pick_samples(ctx, evs, {"root", "powi"})
+    bad = check_calls(ctx, "Decimal", "TraceDecimal", evs, "roots and powers")
+    weak = set(LAST_TAGS.get("WEAK", ()))
+    for i in weak:
+        evs[i]["weak"] = True
+    ncor, _, _ = binding_selftest_dec(ctx, evs, bad)
+
+    def trivial(e):
+        if e["a"] == "root":
+            return e["n"] <= 1 or big_to_int(e["x"]) == 0
+        return e.get("weak") or big_to_int(e["x"]) == 0 or (not e["big"] and abs(e["es"]) <= 1)
+    nontriv = distinct_count(evs, trivial)
+    return {"exhaustive": False, "distinct_nontrivial": nontriv, "powi_calls_only_weakly_checked": len(weak),
+            "corrupted_recordings_rejected": ncor,
+            "rule": "S: all values of 6..8-bit (quick) / 7..11-bit (thorough) types x root degrees 0..4 and exponents -4..4 (TLC): roots have exactly one admissible "
+                    "outcome = the direct definition; for powers the exact result is the only admissible outcome when it is "
+                    "representable, otherwise exactly 'None or any value not beyond the exact one', and the square-and-multiply "
+                    "algorithm is admitted. T: sqrt/cbrt/nth_root on 0, +-1 sub-unit, +-ONE, MIN, MAX, perfect powers (t/10^j)^n "
+                    "+-1 sub-unit of both signs, boundary classes, random values, degrees 0..19 (a few 20..37); checked_powi on ~50 "
+                    "bases (0, +-ONE, ONE+-1 sub-unit, +-2, 0.5, 0.1, 1.5, 1.6, 2^k, roots of MAX +-1, MIN, MAX) x ~50 exponents "
+                    "(0, +-1 .. +-64, 100, 127..132, 255, 256, 1000, 65536, i64::MIN/MAX) plus boundary/random. The full power rule is "
+                    "evaluated when |x|^|e| has at most ~400 digits; beyond that only 'no panic, in range, sign' is checked "
+                    "(counted in powi_calls_only_weakly_checked). distinct_nontrivial = distinct fully-checked calls with "
+                    "degree >= 2 / |exponent| >= 2 and a non-zero base"}
+
+
+def C27(ctx):
+    q = ctx.quick
+    r = tlc("Decimal", "MCDecimal", cfg="MCText", workers=6, consts={"WBITS": 10 if q else 11, "MaxLen": 5 if q else 6}, timeout=3000)
+    tlc_must_pass(r, "MCDecimal/MCText", required_actions=["DoValue", "DoGrow"])
+    ctx.add_tlc(r)
+    if getattr(ctx, "replay_path", None):
+        return replay_file(ctx, "Decimal", "TraceDecimal", "text forms")
+    evs = record(ctx, "text", ["scale=%d" % (1 if q else 4)])
+    pick_samples(ctx, evs, {"parse", "print"})
+    bad = check_calls(ctx, "Decimal", "TraceDecimal", evs, "text forms")
+    # regression inputs (a sign inside the fraction) must be present; a recurrence must be flagged under its key
+    reg = [e for e in evs if e["a"] == "parse" and e["cp"] in ([49, 46, 45, 53], [49, 46, 43, 53], [45, 49, 46, 45, 53])]
+    if len(reg) < 6:
+        raise ToolError("C27 regression inputs 1.-5 / 1.+5 / -1.-5 missing from the recording")
+    for e in reg[:1]:
+        ctx.sample({"regression_input": e}, cap=8)
+    extra = [dict(e, out="ok", r=int_to_big(95 * 10 ** ((16 if e["ty"] == "d" else 34)))) for e in reg if e["out"] == "err"][:4]
+    ncor, rej, cor = binding_selftest_dec(ctx, evs, bad, extra=extra)
+    for i in range(len(extra)):
+        if rej.get(i) != "from_str sign in fractional part":
+            raise ToolError("binding self-test: an accepted sign-in-fraction text was classified %r" % rej.get(i))
+    texts = {(e["ty"], tuple(e["cp"])) for e in evs if e["a"] == "parse"}
+    nonascii = sum(1 for t in texts if any(c > 127 for c in t[1]))
+    return {"exhaustive": False, "distinct_nontrivial": distinct_count(evs, lambda e: e["a"] == "parse" and not e["cp"]),
+            "distinct_texts_parsed": len(texts), "texts_with_non_ascii": nonascii,
+            "values_printed": sum(1 for e in evs if e["a"] == "print"), "corrupted_recordings_rejected": ncor,
+            "rule": "S: every string up to length %d over {-,+,0,1,9,.,x} and every value of a %d-bit / 2-decimal type (TLC): the "
+                    "grammar+value post-condition admits exactly the verdict of a direct left-to-right scanner, the direct printer's "
+                    "output is a canonical numeral of the same value, canonical accepted texts are unique. T: all token sequences "
+                    "over {-,+,0,1,9,.,e,space,_,U+0663} up to length %d and sampled ones up to 6; 30 templates (signs, points, "
+                    "exponent, blanks, underscores, minus sign U+2212, signs inside the fraction ...) padded with digit runs of "
+                    "lengths around 1, SD, digits(MAX), 78, 100; the regression inputs 1.-5, 1.+5, -1.-5 ...; printed MIN/MAX/ONE "
+                    "and neighbours with last digit +1, digits appended, integer part +1; Display of boundary and random values, "
+                    "each parsed back, plus '+', leading-zero and zero-padded variants. distinct_nontrivial = distinct recorded "
+                    "calls (text or value, type) except the empty text" % (5 if q else 6, 10 if q else 11, 3 if q else 4)}
+
+
+_DEC_NOTE = ("Trusted: TLC, BigInt.tla (self-tested against Python integers in the thorough tier of C24), the harness projection "
+             "(operands and results as base-10^4 limbs computed from the inner bnum digits / to_le_bytes, never via to_string or a "
+             "library conversion), the input constructor (own small big-integer). The harness contains no arithmetic on results.")
+
 PROPS = {
+    "C24": dict(fn=C24, level="model_checking", design_ref="5/C24",
+                technique="TLA+ spec Decimal/DecimalPair (relational post-conditions over an abstract number signature): TLC exhaustive "
+                          "uniqueness check at tiny scale with TLC integers + call-trace validation of the real checked_* functions and "
+                          "conversions with BigInt at full scale",
+                text="Post-conditions: add/sub/neg/abs/from-integer return the exact result iff it lies in [MIN, MAX], else None; mul "
+                     "and div return q with |q|*|d| <= |n| < (|q|+1)*|d| and the sign rule (n/d = a*b/S resp. a*S/b), None iff d = 0 or "
+                     "that truncated quotient is outside the range; widening is exact, narrowing truncates toward zero or fails; a panic "
+                     "satisfies nothing. TLC checks over ALL operand pairs of a 6-bit (quick) / 8-bit (thorough) one-decimal type that "
+                     "each post-condition admits exactly one outcome and that it equals the direct definition. The real Decimal and "
+                     "PreciseDecimal functions are then called under catch_unwind on boundary classes crossed pairwise, constructed "
+                     "pairs whose exact result is exactly MIN / MIN+-1 / MAX / MAX+-1, and seeded random values of all bit lengths; "
+                     "every recorded call is decided by the same post-conditions evaluated with BigInt (192/256-bit operands, 384/512-bit "
+                     "products).",
+                note="Results exactly equal to MIN (ONE*MIN, MIN/ONE, narrowing of MIN) are generated on purpose and a recurrence of "
+                     "'reported as overflow' is flagged under the key 'result equals MIN' (self-tested on every run). Mixed-type operator "
+                     "impls (Decimal op integer) and conversions TO integers are not part of the statement and not driven. " + _DEC_NOTE),
+    "C25": dict(fn=C25, level="model_checking", design_ref="5/C25",
+                technique="TLA+ spec Decimal (rounding stated as: multiple of the unit, closer than one unit, mode rule; failure iff the "
+                          "prescribed multiple is not representable): TLC exhaustive check at tiny scale + call-trace validation of "
+                          "checked_round/floor/ceiling/for_withdrawal/checked_truncate with BigInt",
+                text="TLC checks for all values x all decimal places x 7 modes of an 8-bit (quick) / 10-bit (thorough) two-decimal "
+                     "type that the relational rule admits exactly one outcome, equal to the direct definition (neighbouring multiples + "
+                     "mode choice), that values already at the precision are unchanged, and the same for floor, ceiling and truncation "
+                     "to a narrower type. The real functions are called on exact multiples, exact ties and ties +-1 sub-unit of both "
+                     "signs at every decimal place 0..18 / 0..36, values within one unit of MIN/MAX, boundary classes and random values, "
+                     "with all 7 modes; every recorded call is decided by the rule evaluated with BigInt.",
+                note="decimal_places outside 0..SCALE (documented panic) are outside 'any allowed number of decimal places' and not driven. "
+                     "For a None result the specification takes the two multiples around x (from the low decimal digits) as candidates "
+                     "and requires the one satisfying the rule to be outside the range. " + _DEC_NOTE),
+    "C26": dict(fn=C26, level="model_checking", design_ref="5/C26",
+                technique="TLA+ spec Decimal (r^n <= |x|*S^(n-1) < (r+1)^n; exact power as a fraction with representability decided by "
+                          "digit/factor counting): TLC exhaustive check at tiny scale + call-trace validation of checked_sqrt/cbrt/"
+                          "nth_root/powi with BigInt",
+                text="Roots: None iff degree 0 or even root of a negative value; otherwise r has the sign of x and r^n <= |x|*S^(n-1) < "
+                     "(r+1)^n in magnitude. Powers: x^0 = 1; 0^negative fails; if the exact rational result is an in-range integer "
+                     "number of sub-units it must be returned; otherwise None or a value not beyond the exact one in magnitude and not "
+                     "of the opposite sign; never a panic. TLC checks both exhaustively on all values of 6..8-bit (quick) / 7..11-bit (thorough) types; the real functions are "
+                     "called on perfect powers +-1 sub-unit, 0, +-1 sub-unit, +-ONE, MIN, MAX, boundary and random values.",
+                note="Known disagreement with the statement on the unchanged tree: checked_powi(i64::MIN) of +-ONE returns None (negating "
+                     "the exponent overflows) although the exact result 1 is representable - reported as a violation with key "
+                     "'checked_powi(i64::MIN) of +-ONE is None'. Limits: the full power rule is evaluated only while |x|^|e| has at most "
+                     "~400 digits (|e|*limbs(x) <= 100); for larger exponents with |x| not in {0, 1} only 'no panic, in range, sign' is "
+                     "checked. Root degrees above 37 are not driven: the implementation materialises 10^(18*(n-1)), so huge degrees "
+                     "exhaust memory/time before returning (not a panic; outside what this check can observe). " + _DEC_NOTE),
+    "C27": dict(fn=C27, level="model_checking", design_ref="5/C27",
+                technique="TLA+ spec Decimal (grammar [+-]? digit+ ('.' digit{1..SCALE})? over code points, exact value by digit fold): "
+                          "TLC exhaustive check against a direct scanner/printer at tiny scale + call-trace validation of from_str / "
+                          "to_string with BigInt",
+                text="from_str = Ok(v) iff the text is a numeral of the grammar whose exact value (integer digits * 10^SCALE + fraction "
+                     "digits scaled) lies in [MIN, MAX], and v is that value; otherwise Err; never a panic. to_string yields a numeral of "
+                     "exactly the value (hence parse(print(v)) = v). TLC checks on all strings up to length 5 (quick) / 6 (thorough) over "
+                     "a 7-character alphabet and all values of a 10-bit (quick) / 11-bit (thorough) two-decimal type that the post-condition admits exactly the "
+                     "verdict of a direct scanner and that the direct printer's output is accepted with the same value. The real "
+                     "functions are called on exhaustive short token sequences, digit-run padded templates, regression inputs with a "
+                     "sign inside the fraction, the printed extremes and their textual neighbours, and printed boundary/random values.",
+                note="Printing is additionally required to be canonical ('-' only for negative values, no '+', no leading zeros, no "
+                     "trailing fraction zeros) - this goes slightly beyond the statement and is reported under its own key "
+                     "('... to_string not canonical') so that it can be told apart. A recurrence of 'sign accepted inside the fraction' "
+                     "is flagged under the key 'from_str sign in fractional part' (self-tested on every run). " + _DEC_NOTE),
     "C29": dict(fn=C29, level="model_checking", design_ref="5/C29",
                 technique="TLA+ spec Calendar (proleptic Gregorian day count, ToInstant, text form) over an abstract number "
                           "signature: TLC exhaustive check against a day-by-day successor calendar with TLC integers + "
